@@ -378,3 +378,83 @@ def c11(tier):
         j = J("e2e_r%d" % r, "C11_comp.c", ["-DE2E", "-DRES=%d" % r, "-DUPB=(1<<10)"], unwind=r + 2, unit_defs=UP7_DEFS, est=600 + 600 * r, mem="L", tier="thorough", timeout=3400, core=False, bound="all valid cells of res %d x vertex numbers" % r)
         js += with_witness(j, tier="thorough") if r == 0 else [j]
     return js
+
+
+# ------------------------------------------------------------------------------------------- C12
+C12_LOOPS = {"cellToLocalIjk.0": 7, "cellToLocalIjk.1": 7, "cellToLocalIjk.2": 7, "cellToLocalIjk.3": 7, "cellToLocalIjk.4": 7, "cellToLocalIjk.5": 7,
+             "localIjkToCell.1": 7, "localIjkToCell.2": 7, "localIjkToCell.3": 7, "localIjkToCell.4": 7, "localIjkToCell.5": 7, "localIjkToCell.6": 7,
+             "_ipow.0": 6, "gridDiskDistancesUnsafe.0": 8, "_gridDiskDistancesInternal.0": 8, "_gridDiskDistancesInternal.1": 7,
+             "gridRingUnsafe.0": 3, "gridRingUnsafe.1": 3, "gridRingUnsafe.2": 7, "harness.0": 8}
+
+
+@prop("C12",
+      functions=["every exported function listed in the job names; internal NEVER/ALWAYS/assert sites become proof obligations (build without NDEBUG)"],
+      bounds={"quick": "arbitrary 64-bit words / ints / int64 / doubles. Single-word integer APIs: all 2^64 words. APIs walking the digits (disks k<=1, pairs, local IJ): words whose resolution field is 0,1,2 (every other bit arbitrary, incl. invalid digits, modes, base cells 122-127). compactCells: 3 arbitrary words; uncompactCells: 2 words, <= 14 outputs; cellToChildren: one level",
+              "thorough": "digit-walking APIs at resolution fields 0-5 and 15; compactCells 4 words"},
+      outside="k >= 2, larger sets, deeper children; every API that reaches trigonometry or the FP cell-boundary code (latLngToCell beyond argument validation, cellToLatLng, cellToBoundary, vertexToLatLng, areas, edge lengths, polygon functions, cellsToLinkedMultiPolygon): their integer prefixes are covered by C02/C03/C19 jobs, the FP kernels are not decided",
+      assumptions=["malloc does not fail in these jobs (allocation failure is C17)", "S-TRIG stubs for greatCircleDistance*"],
+      stubs=["sin, cos, asin, ... -> S-TRIG (GCDIST job only)"])
+def c12(tier):
+    js = []
+    def ub(name, defs, **kw):
+        kw.setdefault("unwind", 17)
+        kw.setdefault("us", C12_LOOPS)
+        return J(name, "C12_api.c", defs, mode="debug", checks="ub", **kw)
+    js += with_witness(ub("cheap_apis", ["-DCHEAP"], est=20, bound="all words / ints / doubles"))
+    js += [ub("res0cells", ["-DRES0CELLS"], est=5, bound="-")]
+    js += with_witness(ub("hierarchy", ["-DHIER"], est=20, bound="all 2^64 words x all ints"))
+    js += [ub("cellToChildPos", ["-DCHILDPOS"], est=200, mem="M", timeout=1800, bound="all 2^64 words x all ints")]
+    js += [ub("childPosToCell", ["-DPOSCHILD"], est=200, mem="M", timeout=1800, bound="all 2^64 words x all ints x all int64")]
+    js += with_witness(ub("cellToChildren", ["-DCHILDREN"], us=dict(C12_LOOPS, **{"cellToChildren.0": 9, "iterStepChild.0": 18}), est=60, mem="M", bound="all words, one level"))
+    js += with_witness(ub("uncompact", ["-DUNCOMPACT"], us=dict(C12_LOOPS, **{"uncompactCells.0": 9, "uncompactCells.1": 4, "uncompactCellsSize.0": 4, "iterStepChild.0": 18}), est=120, mem="M", timeout=1800, bound="2 arbitrary words, <= 14 outputs"))
+    js += [ub("compact_3", ["-DCOMPACT", "-DNW=3"], unwind=17, us=dict(C12_LOOPS, **{"compactCells.0": 5, "compactCells.1": 5, "compactCells.2": 5, "compactCells.3": 5, "compactCells.4": 5, "compactCells.5": 5, "compactCells.6": 3}), est=120, mem="M", timeout=1800, bound="3 arbitrary words")]
+    js += [ub("gcdist", ["-DGCDIST"], est=20, bound="all doubles (S-TRIG)")]
+    qres = (0, 1, 2)
+    tres = (3, 4, 5, 15)
+    for r in qres + tres:
+        t = "quick" if r in qres else "thorough"
+        for fn, nm in enumerate(("gridDisk", "gridDiskDistances", "gridDiskDistancesSafe", "gridDiskUnsafe", "gridDiskDistancesUnsafe", "gridRingUnsafe")):
+            js.append(ub("%s_r%d" % (nm, r), ["-DDISK", "-DFN=%d" % fn, "-DRES=%d" % r], unwind=max(r + 2, 4), est=150 + 60 * r, mem="M", tier=t, timeout=2400, bound="words with resolution field %d, k <= 1" % r))
+        for fn, nm in enumerate(("areNeighborCells", "cellsToDirectedEdge", "getDirectedEdgeDestination", "directedEdgeToCells", "gridDistance", "cellToLocalIj")):
+            js.append(ub("%s_r%d" % (nm, r), ["-DPAIR", "-DFN=%d" % fn, "-DRES=%d" % r], unwind=(17 if fn in (0, 4, 5) else max(r + 2, 4)), est=150 + 60 * r, mem="M", tier=t, timeout=2400, bound="first word with resolution field %d, second arbitrary" % r))
+        js.append(ub("localIjToCell_r%d" % r, ["-DIJ2CELL", "-DRES=%d" % r], unwind=r + 2, est=150 + 60 * r, mem="M", tier=t, timeout=2400, bound="origin word with resolution field %d, all int32 i,j, all modes" % r))
+    js += with_witness(ub("gridDisk_r1", ["-DDISK", "-DFN=0", "-DRES=1"], unwind=4, est=100, mem="M"))[1:]
+    js += with_witness(ub("areNeighborCells_r1", ["-DPAIR", "-DFN=0", "-DRES=1"], unwind=17, est=100, mem="M"))[1:]
+    return js
+
+
+# ------------------------------------------------------------------------------------------- C17
+MEM_LOOPS = {"memcpy.0": 9, "memcpy.1": 9, "memcpy.2": 2, "memset.0": 9, "memset.1": 9, "memset.2": 2, "vp_alloc_init.0": 13, "vp_free.0": 13}
+
+
+@prop("C17",
+      functions=["compactCells", "areNeighborCells", "gridDisk", "gridDiskDistances", "_gridDiskDistancesInternal", "polygonToCellsExperimental", "maxPolygonToCellsSizeExperimental", "iterInitPolygonCompact", "iterStepPolygonCompact", "iterDestroyPolygonCompact"],
+      bounds={"quick": "every failure schedule (symbolic bit per allocation) of: compactCells on 3 arbitrary words; areNeighborCells on every neighbour pair of res 0-1; gridDisk/gridDiskDistances k=1 on every cell of res 0-1; polygonToCellsExperimental / maxPolygonToCellsSizeExperimental on triangles with 0-1 hole, any flags/resolution, geometry over-approximated",
+              "thorough": "compactCells 6 words; neighbour pairs and disks at res 0-3"},
+      outside="k >= 2, larger sets and polygons; legacy polygonToCells (flood fill) - see DESIGN C17",
+      assumptions=["H3_ALLOC_PREFIX allocator = harness shim; a non-failing allocation returns a fresh block (CBMC malloc/calloc)", "S-GEO: cellToLatLng, cellToBoundary, latLngToCell, cellToBBox and the polygon predicates return arbitrary values in the polygon jobs"],
+      stubs=["vp_malloc/vp_calloc/vp_free (S-ALLOC)", "S-GEO in the polygon jobs", "memcpy/memset loop models"])
+def c17(tier):
+    js = []
+    def al(name, defs, **kw):
+        kw.setdefault("unwind", 5)
+        us = dict(MEM_LOOPS)
+        us.update(kw.pop("us", {}))
+        return J(name, "C17_alloc.c", defs, alloc=True, us=us, **kw)
+    CL = {"compactCells.%d" % i: 8 for i in range(6)}
+    CL["compactCells.6"] = 3
+    js += with_witness(al("compact_3", ["-DCOMPACT", "-DNW=3"], unwind=17, us=dict(CL, **{"harness.0": 4}), est=60, mem="M", bound="3 arbitrary words, every failure schedule"))
+    js += [al("compact_6", ["-DCOMPACT", "-DNW=6"], unwind=17, us=dict(CL, **{"harness.0": 7}), est=600, mem="L", tier="thorough", timeout=3400, core=False, bound="6 arbitrary words, every failure schedule")]
+    DL = {"_gridDiskDistancesInternal.0": 8, "_gridDiskDistancesInternal.1": 7, "gridDiskDistancesUnsafe.0": 8, "harness.0": 8, "harness.1": 8, "harness.2": 8}
+    for r in (0, 1, 2, 3):
+        t = "quick" if r <= 1 else "thorough"
+        j = al("neighbors_r%d" % r, ["-DNEIGHBORS", "-DRES=%d" % r], unwind=max(r + 2, 4), us=DL, est=200 + 200 * r, mem="M", tier=t, timeout=3000, bound="every neighbour pair of res %d, every failure schedule" % r)
+        js += with_witness(j, tier=t) if r == 1 else [j]
+        for wd in (0, 1):
+            j = al("disk%s_r%d" % ("dist" if wd else "", r), ["-DDISK", "-DRES=%d" % r] + (["-DWITHDIST"] if wd else []), unwind=max(r + 2, 4), us=DL, est=200 + 200 * r, mem="M", tier=t, timeout=3000, bound="every cell of res %d, k=1, every failure schedule" % r)
+            js += with_witness(j, tier=t) if (r == 0 and wd == 0) else [j]
+    PS = {"h3Index": ["cellToLatLng", "cellToBoundary", "latLngToCell"], "polyfill": ["cellToBBox"], "polygon": ["pointInsidePolygon", "cellBoundaryInsidePolygon", "cellBoundaryCrossesPolygon"]}
+    PL = {"iterStepPolygonCompact.0": 4, "nextCell.0": 4, "polygonToCellsExperimental.0": 4, "maxPolygonToCellsSizeExperimental.0": 4, "maxPolygonToCellsSizeExperimental.1": 4, "bboxesFromGeoPolygon.0": 3, "bboxFromGeoLoop.0": 5, "iterStepChild.0": 5, "harness.0": 4, "setH3Index.0": 4}
+    js += with_witness(al("polyexp", ["-DPOLYEXP"], unwind=5, us=PL, stubs=PS, est=200, mem="M", timeout=2400, bound="triangle + <=1 hole, res <= 2 (incl. negative), any flags, capacity 2, <= 3 iterator steps"))
+    js += with_witness(al("polymax", ["-DPOLYMAX"], unwind=5, us=PL, stubs=PS, est=200, mem="M", timeout=2400, bound="triangle + <=1 hole, res <= 2 (incl. negative), any flags, <= 3 iterator steps"))
+    return js
